@@ -756,10 +756,11 @@ def run(ctx, facts):
     # decided by a probe sequence keyed by the bin alone over the occupancy flags (the rules of C09), or the result depends
     # on the order of arrival
     from . import C09 as _C09d
-    for k_ in ("DENS-target", "DENS-source", "PAIR", "BOOKKEEPING", "EMPTY"):
+    for k_ in ("DENS-target", "DENS-source", "DENS-SEED", "PAIR", "BOOKKEEPING", "EMPTY"):
         ctx.rule(k_, _C09d.RULES[k_])
     for prefix in (OD, RD):
         _C09d.dens_rules(ctx, facts, prefix)
+        _C09d.dens_seed(ctx, facts, prefix)
         _C09d.bookkeeping(ctx, facts, prefix)
         _C09d.empty_guard(ctx, facts, prefix)
     # SetSketch prunes draws against lower_k: a bound above some register makes the registers depend on the order of arrival
